@@ -39,8 +39,9 @@ namespace unifex::v2 {
 // spinlock, eliminating race windows between signalling and
 // draining.
 //
-// Scheduler-affine: completions reschedule onto the receiver's
-// scheduler.  Cancellation: via try_remove on the waiter list.
+// Scheduler-affine: completions (set_value and the set_done of a
+// cancelled wait) reschedule onto the receiver's scheduler.
+// Cancellation: via try_remove on the waiter list.
 class async_manual_reset_event {
   class wait_raw_sender;
 
@@ -102,7 +103,13 @@ private:
         // reschedule cannot be cancelled.  Forwards all other
         // queries to the original receiver.
         struct reschedule_receiver {
-          void set_value() noexcept { op_.complete_value(); }
+          void set_value() noexcept {
+            if (op_.cancelled_) {
+              unifex::set_done(std::move(op_.receiver_));
+            } else {
+              op_.complete_value();
+            }
+          }
 
           template <typename Error>
           void set_error(Error&& error) noexcept {
@@ -187,6 +194,7 @@ private:
         async_manual_reset_event& evt_;
         Receiver receiver_;
         manual_lifetime<reschedule_op_t> reschedule_op_;
+        bool cancelled_{false};
       };
     };
 
@@ -225,7 +233,11 @@ void async_manual_reset_event::wait_raw_sender::_op<
     Receiver>::type::stop() noexcept {
   if (evt_.waiters_.try_remove(this)) {
     if (try_complete(this)) {
-      unifex::set_done(std::move(receiver_));
+      // Like set_value, set_done is delivered on the receiver's
+      // scheduler (the sender is scheduler-affine), not inline on
+      // the thread that requested stop.
+      cancelled_ = true;
+      reschedule();
     }
   }
 }
